@@ -52,6 +52,15 @@ CLAIMS = {
         'reference evaluated on the implementation.',
    note=NOTE_COMMON + 'gmtime_r and snprintf are libc: modelled (civil_from_days, decimal printers) and tied by correspondence only; drivers compiled with -fwrapv.',
    design='4/C17', technique='Coq proof (Z arithmetic with explicit int64 wrap, finite sweep lifted by lemma for the calendar) + differential correspondence'),
+ 'C01': dict(
+   text='Theorems C01_invariant_reachable, C01_queue_refines_fifo, C01_quiescent_delivers_all, C01_window_disjoint_unreleased, C01_wrap_excludes_dataEnd_reader (Coq, closed): '
+        'on a release/acquire machine in which every load of the other thread\'s index may read ANY store not older than the newest already seen, for every capacity, every sequence '
+        'of producer/consumer operations and every reads-from choice, the queue refines a FIFO log: granted writes append one commit, failed requests change nothing, every batch is the '
+        'committed bytes from the released offset to a commit boundary, both pieces are runs of whole commits, no unreleased byte lies in the granted window, and dataEnd is never '
+        'rewritten while a reader could read it. Instantiated with the memory orders and branch structure read off the three headers; tied by running the REAL headers over a '
+        'store-history std::atomic with the same reads-from choices (value correspondence after every operation) and happens-before stamps on buffer cells.',
+   note=NOTE_COMMON + 'the memory-model fragment (two single-writer atomics, views monotone) and the second implementation of it in harness/drv_queue.cpp; plain accesses to dataEnd are covered by theorem + value correspondence, not observed.',
+   design='4/C01 + Appendix A', technique='Coq invariant proof over an executable release/acquire machine with ghost laps; refinement to a FIFO spec; differential correspondence on the real headers'),
 }
 REASON_NOT_BUILT = 'not built yet in this round: no theorem/correspondence for it is registered; not claimed at a lower level by another technique'
 m = {'version': 1, 'setup_cmd': './setup.sh',
